@@ -172,6 +172,19 @@ class NarwhalsMaterializer(FormulaMaterializer):
                 )
         return out
 
+    def _restore_pandas_index(
+        self, df: pandas.DataFrame, drop_rows: Sequence[int]
+    ) -> pandas.DataFrame:
+        # Columns are rebuilt from raw arrays, which loses the row labels of a
+        # pandas data frame; put the labels of the retained rows back.
+        native = nw.to_native(self.__narwhals_data)
+        if isinstance(native, pandas.DataFrame):
+            index = native.index
+            if drop_rows:
+                index = index.delete(list(drop_rows))
+            df.index = index
+        return df
+
     @override
     def _combine_columns(
         self, cols: Sequence[tuple[str, Any]], spec: ModelSpec, drop_rows: Sequence[int]
@@ -186,7 +199,7 @@ class NarwhalsMaterializer(FormulaMaterializer):
                 return nw.from_native(values, eager_only=True)
             if spec.output == "numpy":
                 return values
-            return pandas.DataFrame(values)
+            return self._restore_pandas_index(pandas.DataFrame(values), drop_rows)
 
         # Otherwise, concatenate columns into model matrix
         if spec.output == "sparse":
@@ -203,8 +216,7 @@ class NarwhalsMaterializer(FormulaMaterializer):
                 return combined
             return combined.to_native()
         if spec.output == "pandas":
-            df = combined.to_pandas()
-            return df
+            return self._restore_pandas_index(combined.to_pandas(), drop_rows)
         if spec.output == "numpy":
             return combined.to_numpy()
         raise ValueError(f"Invalid output type: {spec.output}")
